@@ -248,7 +248,7 @@ def h_raster(c, n):
             c.assume(And(v >= 0, v <= 2))
     for v in a["r"]:
         c.assume(v <= 1)
-    res = [c.pick("rx", [1, 0.5]), 1, c.pick("rz", [1, 0.5, 2])]
+    res = [c.pick("rx", [1, 0.5]), 1, c.pick("rz", [1, 0.5, 2, 0.75])]
     cones, samplers, scene_log = [], [], []
 
     class Scene_:
@@ -346,5 +346,5 @@ HARNESSES = [
     H("ndarray", h_ndarray, quick=[dict(kind="real", dtype=None), dict(kind="real", dtype="f32"), dict(kind="u8", dtype="f32"), dict(kind="u8", dtype="u8"), dict(kind="mixed", dtype="u8"), dict(kind="mixed", dtype="u16")],
       thorough=[dict(kind="mixed", dtype="u8"), dict(kind="mixed", dtype="u16"), dict(kind="u8", dtype="f32")], functions=FUNCTIONS, bounds="(2,1,2) stacks, conversions float<->uint8/uint16"),
     H("raster", h_raster, quick=[dict(n=2)], thorough=[dict(n=3)], functions=FUNCTIONS, opts=dict(merge_minmax=True),
-      bounds="trees of n=2 (quick) / 3 (thorough) nodes, coordinates symbolic in [0,2], radii in (0,1], resolution from {1, 0.5} x {1} x {1, 0.5, 2}"),
+      bounds="trees of n=2 (quick) / 3 (thorough) nodes, coordinates symbolic in [0,2], radii in (0,1], resolution from {1, 0.5} x {1} x {1, 0.5, 2, 0.75}"),
 ]
